@@ -629,7 +629,7 @@ func (fr *Frame) frameCheck(label string, from, to *State, mods []ModLoc, p toke
 			sort.Slice(ids, func(i, j int) bool { return ids[i].id < ids[j].id })
 			allowed = append(allowed, b.And(b.mk("(_ is Fld)", SBool, l), b.Or(ids...)))
 		}
-		isMapHeap := strings.HasPrefix(hn, "M_") || strings.HasPrefix(hn, "MD_") || hn == "ML"
+		isMapHeap := strings.HasPrefix(hn, "M_") || strings.HasPrefix(hn, "MD_") || strings.HasPrefix(hn, "ML_")
 		for _, m := range mods {
 			if m.all {
 				allowed = append(allowed, b.True())
